@@ -356,6 +356,39 @@ class Interp(object):
         first = self._issues(d.validate().errors)
         return {"issues": first, "again": self._issues(d.validate().errors), "rerun": first}
 
+    def op_validate_keep(self, x):
+        """A Validation the caller keeps (to run it again later, after edits)."""
+        from odml.validation import Validation
+        val = Validation(x)
+        self.U.validations.append((val, x))
+        return {"kept": len(self.U.validations) - 1, "issues": self._issues(val.errors)}
+
+    def op_validate_rerun(self, k, report=False):
+        """Run a kept Validation again and compare it with a fresh one of the same object: both
+        look at the same, now unchanged, objects."""
+        from odml.validation import Validation
+        if not self.U.validations:
+            raise Skip("no kept validation")
+        val, x = self.U.validations[k % len(self.U.validations)]
+        if report:
+            val.report()
+        else:
+            val.run_validation()
+        kept = self._issues(val.errors)
+        fresh = self._issues(Validation(x).errors)
+        return {"issues": kept, "again": fresh, "rerun": kept}
+
+    def op_validate_optional(self, x, rule="section_repository_present"):
+        """A custom validation that applies one of the library's own optional rules."""
+        from odml import validation as V
+        val = V.Validation(x, validate=False, reset=True)
+        klass = "property" if rule.startswith("property") else "section"
+        val.register_custom_handler(klass, getattr(V, rule))
+        val.run_validation()
+        first = self._issues(val.errors)
+        val.run_validation()
+        return {"issues": first, "again": self._issues(val.errors), "rerun": first}
+
     def op_validate_custom(self, x, klass="section", report=False):
         from odml.validation import Validation, ValidationError, IssueID
 
@@ -391,6 +424,9 @@ class Interp(object):
             raise Skip("no file")
         ent = self.U.files[f % len(self.U.files)]
         doc = odml.load(ent["path"], ent["backend"])
+        if doc is None:
+            # what the JSON / YAML front end does for text it cannot decode (judged by C16)
+            raise ValueError("odml.load returned None")
         return {"new": self._reg(doc)}
 
     def op_damage_file(self, f, how="version"):
